@@ -22,6 +22,7 @@ import (
 	"path/filepath"
 	"strconv"
 	"strings"
+	"time"
 
 	"github.com/Ptt-official-app/go-pttbbs/cache"
 	"github.com/Ptt-official-app/go-pttbbs/cmbbs"
@@ -72,10 +73,10 @@ type brd struct {
 }
 
 type art struct {
-	total0, found             bool
+	total0, found              bool
 	argName, entName, entOwner string
-	mode                      uint8
-	exists                    bool
+	mode                       uint8
+	exists                     bool
 }
 
 type row struct {
@@ -649,7 +650,8 @@ func callOp(op string, r row, u *ptttype.UserecRaw) string {
 	sID, sBid := bid2id(r.s.name), bidOf(r.s.name)
 	fn := &ptttype.Filename_t{}
 	copy(fn[:], r.a.argName)
-	return hx.Call(func() string {
+	// generous watchdog: the machine may be shared with other checks
+	return hx.CallT(20*time.Second, func() string {
 		switch op {
 		case "newpost":
 			_, err := ptt.NewPost(u, theUID, sID, sBid, []byte("test"), []byte("hello"), [][]byte{[]byte("line 1"), []byte("line 2")}, theIP, nil)
@@ -1006,4 +1008,3 @@ func main() {
 	run.Extra["only_this_clause_fails_rows"] = cells
 	run.Finish()
 }
-
